@@ -13,7 +13,11 @@
 (*   Y a l  ... whose action itself co_awaits leaf sender l (suspends)     *)
 (*   A l b  co_await leaf sender l   (b = 1: catch its exception, go on)   *)
 (*   N l b  co_await as_sender(awaitable leaf l)                            *)
-(*   M l b  co_await awaitable leaf l                                       *)
+(*   M l b  co_await awaitable leaf l (handle-returning await_suspend)      *)
+(*   H/B/V l b  the same leaf with another awaiter shape: symmetric         *)
+(*          transfer through a trampoline / bool await_suspend /            *)
+(*          await_ready()=true or void await_suspend.  The shape must not   *)
+(*          matter: all of them behave like M.                              *)
 (*   T c b  co_await child task c  (scheduler-affine sa_task awaiter)       *)
 (*   O c    co_await done_as_optional(child task c)  (connect of a task:    *)
 (*          connect_awaitable + stop-request thunk + let_done)              *)
@@ -48,7 +52,7 @@ Script == cfg.script
 K == Len(Script.body)
 Frames == 0..(K - 1)
 Body(k) == Script.body[k + 1]
-LeafKinds == {"A", "N", "M"}
+LeafKinds == {"A", "N", "M", "H", "B", "V"}
 StmtsOf(sc) == UNION {{sc.body[j][i] : i \in 1..Len(sc.body[j])} : j \in 1..Len(sc.body)}
 CleanLeavesOf(sc) == {s.b : s \in {x \in StmtsOf(sc) : x.k = "Y"}}      \* leaves awaited inside cleanup actions
 LeavesOf(sc) == {s.a : s \in {x \in StmtsOf(sc) : x.k \in LeafKinds}} \cup CleanLeavesOf(sc)
